@@ -143,4 +143,11 @@ CLAIMS['C08'] = {
   'text': 'Decides: only the allocator touches the workspace bookkeeping; used = top1 + size - top2 is an inductive invariant of every allocator routine (so the fullness test is exact and nothing is granted outside [work, work+lwork)); NULL returns are honoured; releases match successful acquisitions; every expansion failure is returned at once as a non-zero byte count up to info; which arguments an lwork = -1 query writes. Not decided: subscript ranges inside numerical kernels.',
   'note': 'One defect was repaired by a fix: commit (?LUMemInit underflow of a too small workspace, replayed concretely). Known findings: the size query of the eight expert drivers has side effects (recorded). Positive-control fixture for the zero-count rules.',
 }
+CLAIMS['C10'] = {
+  'level': 'other',
+  'technique': 'static analysis: flag-partitioned event oracles on get_perm_c and sp_preorder (R3) with permutation-shape classification (R7), must-not-read effect sets (R10), ownership dataflow (R4), allocation/initialisation extent rule, twin agreement',
+  'design_ref': 'DESIGN.md 5 C10',
+  'text': "Decides the glue around the ordering algorithms for every ColPerm value and Fact / SymmetricMode setting: dispatch, index-base conversion paired on both sides of the 1-based MMD routine with the right extents, identity for NATURAL and for an empty structure, private copies and inversion around COLAMD, permutation roles in sp_preorder (scatter by perm_c; relabel etree/colbeg/colend by post; compose perm_c with post; nothing in reuse modes; no post-order in symmetric mode), no read of a matrix value anywhere in the ordering code (pattern-only dependence), no leak on any exit. The correctness of MMD / COLAMD / Liu's algorithm themselves (bijection, exact tree, contiguous post-order) is not decided; of the relaxed-supernode routines only agreement with their ILU twins is.",
+  'note': "A seeded change inside COLAMD's scoring loop is not detected (values, not shape).",
+}
 NOT_APPLICABLE = {}
